@@ -227,7 +227,7 @@ type MutCase struct {
 }
 
 var hostileValues = []string{
-	`null`, `""`, `" "`, `0`, `-1`, `1e999`, `123456789012345678901234567890`, `0.0000000000000000000000001`, `true`, `[]`, `{}`, `[null]`, `[[]]`, `{"":null}`,
+	`null`, `""`, `" "`, `0`, `-1`, `1e999`, `1e-999`, `1e-99999999999999999999`, `1e99999999999999999999`, `1e-9223372036854775808`, `-1E-9223372036854775809`, `"1e-99999999999999999999"`, `"2.5E3"`, `"1e-7"`, `0e0`, `-0.0e-0`, `123456789012345678901234567890`, `0.0000000000000000000000001`, `true`, `[]`, `{}`, `[null]`, `[[]]`, `{"":null}`,
 	`"ZZZ"`, `"XX"`, `"FJ"`, `"xx-unknown-v1"`, `"https://gobl.org/draft-0/bill/nonexistent"`, `"https://gobl.org/draft-0/bill/invoice"`, `"9999-99-99"`, `"0000-00-00"`,
 	`"0.0000000000000000000000000000000000000000000000000000000000000000001"`, `"1.0000000000000000000%"`, `"-"`, `"%"`, `"100%"`, `"-100%"`, `"-100.0%"`, `"-1"`, `"-0"`, `"1.5.2"`, `"99999999999999999999"`, `"00000000-0000-0000-0000-000000000000"`, `"not-a-uuid"`, `[""]`, `[null,null]`,
 	`"\u0000"`, `"😀"`, `"é A-1"`, templateText, `"{{"`, `"{{.max}}{{.min}}{{template \"x\"}}"`, `"%!s(MISSING)%d%v%n"`, `"AAAAAAAAAAAAAAAAAAAAAAAAAAAAAAAAAAAAAAAAAAAAAAAAAAAAAAAAAAAAAAAAAAAAAAAAAAAAAAAAAAAAAAAAAAAAAAAAAAAAAAAAAAAAAAAAAAAAAAAAAAAAAAAAAAAAAAAA"`, `{"a":{"a":{"a":{"a":{"a":{"a":{"a":{"a":{"a":{"a":{"a":{"a":{"a":{"a":{"a":{"a":1}}}}}}}}}}}}}}}}`,
